@@ -424,10 +424,10 @@ func runC08(c *Ctx, r *Report) {
 	c08R4(c, r, "C08.R4")
 	c08R5(c, r, "C08.R5")
 	c08R6(c, r, "C08.R6")
-	c02R6(c, r, "C08.R8")      // a compiled handler chain cached across connections would capture one connection's continuation
-	c10R5(c, r, "C08.R9")      // the shared round-robin position advances by one atomic read-modify-write per probe
+	c02R6(c, r, "C08.R8") // a compiled handler chain cached across connections would capture one connection's continuation
+	c10R5(c, r, "C08.R9") // the shared round-robin position advances by one atomic read-modify-write per probe
 	c08QuicAddr(c, r, "C08.R11")
-	c09R6(c, r, "C08.R12") // a UDP client never reads another client's datagram: queued datagram records do not alias
+	c09R6(c, r, "C08.R12")     // a UDP client never reads another client's datagram: queued datagram records do not alias
 	c17Handle(c, r, "C08.R10") // per-connection state of a handler (the throttle's own limiter) is built per connection, only the handler-wide limiter is shared
 	c13R3(c, r, "C08.R7")      // the hand-off release discipline is also a C08 obligation (buffer shared across connections)
 }
